@@ -235,3 +235,83 @@ Print Assumptions C16_example_tables.
 Print Assumptions C16_example_shown.
 Print Assumptions C16_extract_shown_blocks.
 Print Assumptions C16_example_blocks.
+
+(* ------------------------------------------------------------------------------------------
+   (3') "... also after the document is saved and reloaded": composition with C01_full
+   (proofs in Proofs/ComposeText.v).  The extraction model starts from a page's fonts and decoded operations;
+   [doc_page decomp decode fuel objects pid] is that view of a Document: Document::get_page_fonts and
+   Document::get_page_content as modelled in Model/Query.v (C13's model), then Content::decode -- [decode] and the
+   stream decoder [decomp] are ANY functions.  [savable], [known_deep], [small_file] are C01's domain, [load] / [save]
+   the models C01_full is about.  [content_normal]: the dictionaries of the page's content streams hold no integral
+   real (a decode parameter written 12.0 is ignored as a real and obeyed once reloaded as an integer).
+   [unreferenced xt d]: nothing for the table format; for the stream format no object mentions the identifier
+   [xref_id d] = (max(max_id, largest number) + 1, 0), under which the loader keeps the cross-reference stream (a
+   Contents reference dangling there would resolve to that stream after the reload).
+   The section imports are local to it.
+   ------------------------------------------------------------------------------------------ *)
+From LV Require Model.Save Model.Xref Model.Loader Spec.SaveSpec Proofs.ComposeReload Proofs.ComposeText.
+Section AfterSaveAndReload.
+  Import Model.Save Model.Xref Model.Loader Spec.SaveSpec Proofs.ComposeReload Proofs.ComposeText.
+
+  (* the page of C16_extract_shown_text, both cross-reference formats: the written file loads, the loaded document
+     has a page view again, and the text extracted from it is the text shown *)
+  Theorem C16_extract_after_save_load :
+    forall decomp decode xt d fuel pid font t fname size ps,
+      savable d -> known_deep d = false -> small_file xt d -> unreferenced xt d ->
+      content_normal fuel (d_objects d) pid ->
+      doc_page decomp decode fuel (d_objects d) pid = Some (page_showing fname font size t ps) ->
+      get_font_encoding font = Ok (EncOneByte t) ->
+      Forall (piece_over (in_repertoire t)) ps ->
+      exists d' p',
+        load (so_bytes (save xt d)) = LOk d' (xtype_of xt) /\
+        doc_page decomp decode fuel (d_objects d') pid = Some p' /\
+        extract_text [p'] [1] = Ok (shown_text ps).
+  Proof. exact extract_shown_after_save_load. Qed.
+
+  (* ... and the page of C16_extract_shown_blocks *)
+  Theorem C16_extract_blocks_after_save_load :
+    forall decomp decode xt d fuel pid font t inside fname size bss,
+      savable d -> known_deep d = false -> small_file xt d -> unreferenced xt d ->
+      content_normal fuel (d_objects d) pid ->
+      doc_page decomp decode fuel (d_objects d) pid = Some (page_blocks inside fname font size t bss) ->
+      get_font_encoding font = Ok (EncOneByte t) ->
+      Forall (Forall (piece_over (in_repertoire t))) bss -> Forall block_shows bss ->
+      exists d' p',
+        load (so_bytes (save xt d)) = LOk d' (xtype_of xt) /\
+        doc_page decomp decode fuel (d_objects d') pid = Some p' /\
+        extract_text [p'] [1] = Ok (shown_blocks bss).
+  Proof. exact extract_blocks_after_save_load. Qed.
+
+  (* whatever the pages hold (any fonts, any operations, any page numbers): the reloaded document extracts exactly
+     the chunks and the text the document in memory extracts -- the harness verdict for arbitrary operation lists *)
+  Theorem C16_extract_same_after_save_load :
+    forall decomp decode xt d fuel pids pages nums,
+      savable d -> known_deep d = false -> small_file xt d -> unreferenced xt d ->
+      Forall (fun pid => lookup (d_objects d) pid <> None /\ content_normal fuel (d_objects d) pid) pids ->
+      Forall2 (fun pid p => doc_page decomp decode fuel (d_objects d) pid = Some p) pids pages ->
+      exists d' pages',
+        load (so_bytes (save xt d)) = LOk d' (xtype_of xt) /\
+        Forall2 (fun pid p => doc_page decomp decode fuel (d_objects d') pid = Some p) pids pages' /\
+        extract_text_chunks pages' nums = extract_text_chunks pages nums /\
+        extract_text pages' nums = extract_text pages nums.
+  Proof. exact extract_same_after_save_load. Qed.
+
+  (* non-vacuity: a five-object document (catalog, page tree, page with an inline Resources dictionary, WinAnsi font,
+     content stream) meets every hypothesis in both formats; its page view is the page of C16_example_shown *)
+  Theorem C16_example_after_save_load :
+    get_font_encoding ex_font = Ok (EncOneByte ex_table) /\
+    Forall (piece_over (in_repertoire ex_table)) ex_pieces /\
+    savable ex_text_doc /\ known_deep ex_text_doc = false /\
+    small_file XTable ex_text_doc /\ small_file XStream ex_text_doc /\
+    unreferenced XTable ex_text_doc /\ unreferenced XStream ex_text_doc /\
+    content_normal 200 (d_objects ex_text_doc) (3, 0) /\
+    doc_page (fun _ _ => None) ex_decode 200 (d_objects ex_text_doc) (3, 0)
+      = Some (page_showing (bs "F1") ex_font (OInt 12) ex_table ex_pieces) /\
+    xref_id ex_text_doc = (6, 0).
+  Proof. exact ex_text_after_save_load. Qed.
+End AfterSaveAndReload.
+
+Print Assumptions C16_extract_after_save_load.
+Print Assumptions C16_extract_blocks_after_save_load.
+Print Assumptions C16_extract_same_after_save_load.
+Print Assumptions C16_example_after_save_load.
